@@ -47,6 +47,12 @@ LeafSchemas ==
     str_pat     |-> [type |-> "string", pattern |-> "P_a_prefix"],
     str_enum    |-> [type |-> "string", enum |-> <<"a", "ab">>],
     str_date    |-> [type |-> "string", format |-> "date"],
+    \* formats whose Go type is not a string underneath: named definitions of them need their own (un)marshallers
+    str_dt      |-> [type |-> "string", format |-> "date-time"],
+    str_dur     |-> [type |-> "string", format |-> "duration"],
+    str_byte    |-> [type |-> "string", format |-> "byte"],
+    \* an enum on an array-typed schema (values are arrays)
+    arr_enum    |-> [type |-> "array", items |-> [type |-> "integer"], enumT |-> <<Arr(<<Num(2), Num(4)>>), Arr(<<Num(6)>>)>>],
     bool_plain  |-> [type |-> "boolean"],
     arr_int     |-> [type |-> "array", items |-> [type |-> "integer", minimum |-> 4]],
     arr_count   |-> [type |-> "array", items |-> [type |-> "integer"], minItems |-> 1, maxItems |-> 2],
@@ -77,7 +83,7 @@ DefName(leaf, w) == leaf \o "__" \o w
 LeafDefName(leaf) == leaf \o "__top"
 
 \* a default must itself be valid for the leaf (else the document is not a valid spec) and non-zero
-DefaultCands == {Num(4), Num(6), Num(3), Num(2), Num(8), Str("ab"), Str("a"), Str("2020-01-02"), Bool(TRUE)}
+DefaultCands == {Num(4), Num(6), Num(3), Num(2), Num(8), Str("ab"), Str("a"), Str("2020-01-02"), Str("3s"), Str("YWI="), Str("2020-01-02T03:04:05Z"), Bool(TRUE)}
 DefaultFor(leaf) == CHOOSE v \in DefaultCands : Valid(<<>>, LeafSchemas[leaf], v)
 
 Wrap(leaf, w) ==
@@ -156,13 +162,19 @@ DefKeys == {<<l, w>> \in Leaves \X Wrappers : WrapOK(l, w)}
 DefNames == {DefName(k[1], k[2]) : k \in DefKeys} \cup SpecialNames
 KeyOf(name) == CHOOSE k \in DefKeys : DefName(k[1], k[2]) = name
 DefSchema(name) == IF name \in SpecialNames THEN SpecialSchemas[name] ELSE Wrap(KeyOf(name)[1], KeyOf(name)[2])
-AllDefs == [n \in DefNames |-> DefSchema(n)]
+\* all definitions as one function name -> schema, built leaf by leaf (a direct [n \in DefNames |-> DefSchema(n)]
+\* costs |DefNames|^2 string comparisons, and TLC re-evaluates it at every use)
+OKW(l) == {w \in Wrappers : WrapOK(l, w)}
+LeafDefs(l) == [nm \in {DefName(l, w) : w \in OKW(l)} |-> Wrap(l, CHOOSE w \in OKW(l) : DefName(l, w) = nm)]
+RECURSIVE MergeLeaves(_)
+MergeLeaves(L) == IF L = {} THEN SpecialSchemas ELSE LET l == CHOOSE x \in L : TRUE IN LeafDefs(l) @@ MergeLeaves(L \ {l})
+AllDefs == MergeLeaves(Leaves)
 
 (***************************************************************************)
 (* Instances                                                               *)
 (***************************************************************************)
 NumVals == {-6, -4, -2, -1, 0, 1, 2, 3, 4, 5, 6, 8, 9, 10, 11, 12}
-StrVals == {"", "a", "ab", "abc", "b", "2020-01-02"}
+StrVals == {"", "a", "ab", "abc", "b", "2020-01-02", "3s", "YWI=", "2020-01-02T03:04:05Z"}
 Scalars == {Num(n) : n \in NumVals} \cup {Str(x) : x \in StrVals} \cup {Bool(TRUE), Bool(FALSE)}
 
 SeqsUpTo(S, n) == UNION {[1..k -> S] : k \in 0..n}
@@ -177,6 +189,7 @@ LeafVals(leaf) ==
     [] s.type = "string"  -> {Str(x) : x \in StrVals} \cup {Num(2)}
     [] s.type = "boolean" -> {Bool(TRUE), Bool(FALSE), Str("a")}
     [] leaf = "arr_int"    -> {Arr(q) : q \in SeqsUpTo({Num(2), Num(4), Num(0)}, 2)} \cup {Arr(<<Str("a")>>), Str("a")}
+    [] leaf = "arr_enum"   -> {Arr(<<>>), Arr(<<Num(2), Num(4)>>), Arr(<<Num(4), Num(2)>>), Arr(<<Num(6)>>), Arr(<<Num(2)>>), Arr(<<Num(8)>>), Arr(<<Num(6), Num(6)>>)}
     [] leaf = "arr_count"  -> {Arr(q) : q \in SeqsUpTo({Num(2)}, 3)} \cup {Arr(<<Num(1)>>)}
     [] leaf = "arr_unique" -> {Arr(q) : q \in SeqsUpTo({Str("a"), Str("b")}, 2)} \cup {Arr(<<Str("a"), Str("b"), Str("a")>>)}
     [] leaf = "arr_nested" -> {Arr(<<>>), Arr(<<Arr(<<>>)>>), Arr(<<Arr(<<Num(4)>>)>>), Arr(<<Arr(<<Num(6)>>)>>),
